@@ -154,6 +154,28 @@ R9 = {
  "C16": "Round 9: GetStatus replies announcing more than arrived after a longer reply; GetStatus naming this process then every setter.",
  "C17": "Round 9: transports that panic once in Close / in the n-th Send (caller recovers); package-level counters.",
 }
+# rounds 10 and 11 (DESIGN.md §12.9, §12.10)
+R10 = {
+ "C01": "Rounds 10/11: a Stream that pushes a lower complete event from a callback; a caller that overwrites Sequence after pushing; Streams with every method of every interface the tree declares; old objects (clock advanced up to 2^31 s); terminating record at positions 2^8 / 2^16.",
+ "C02": "Rounds 10/11: a Stream that pushes a lower complete event from a callback (the order clause applies as stated); a caller that overwrites the Sequence field of its struct after PushMessage returned.",
+ "C03": "Rounds 10/11: Streams that also have every method of every interface type the tree's root package declares (generated at check time), so that an optional interface cannot divert the loss reports.",
+ "C10": "Rounds 10/11: the terminating record (or EOE) as exactly the n-th record of its event for n around 2^8, 2^16 and their multiples.",
+ "C19": "Rounds 10/11: objects aged by an hour ... 2^31 seconds of virtual time before the first push (deadline resolution does not depend on age); time.Location is no longer treated as shared mutable storage.",
+ "C11": "Rounds 10/11: schedules explored from non-initial states (events buffered before the threads start, above / below the racing sequences, list at and below capacity), also in the free-running -race pass.",
+ "C18": "Rounds 10/11: every preset Header.Len around the true and the aligned length for every payload length.",
+ "C13": "Rounds 10/11: decode histories in one process (the whole rule, then its prefixes, alternating); every string of <=3 units over byte classes as the value of 14 fields.",
+ "C15": "Rounds 10/11: every subset of PATH keys, PATH pairs agreeing / differing in every combination of inode, dev, name x name types; records repeating k-1 SYSCALL fields.",
+ "C09": "Rounds 10/11: PATH key subsets and PATH pairs; auxiliary records repeating k-1 SYSCALL fields verbatim (k = 2..27, 16 repetitions); records re-stamped with sub-millisecond instants.",
+ "C07": "Rounds 10/11: every field x every list together with an explicit syscall list.",
+ "C06": "Rounds 10/11: every field x every list together with an explicit syscall list (mask = exactly the requested bits).",
+ "C04": "Rounds 10/11: headers whose seconds / sequences differ by 2^k parsed and rendered back to back; one line buffer reused for the next line (same address and length) for every pair of type names of equal length.",
+ "C05": "Rounds 10/11: every address family 0..46 (thorough 0..255) x 9 lengths x one byte anywhere set to each of 8 values.",
+ "C12": "Rounds 10/11: success= and res= (and look-alike keys) in one record, both orders.",
+ "C14": "Rounds 10/11: zero-length -w / -p values on the line in every combination.",
+ "C16": "Rounds 10/11: the setter pass repeated under the UNAME26 personality (uname reports a 2.6 release).",
+ "C17": "Rounds 10/11: acknowledgements of another type inside WaitForPendingACKs followed by a second wait; the n-th Send failing with each of 20 Go error values (os.ErrClosed, net.ErrClosed, io.EOF, wrapped, opaque ...): the socket is closed exactly once.",
+ "C20": "Rounds 10/11: every arch name x every errno name through builder and printer.",
+}
 
 def emit():
     out = {
@@ -161,7 +183,7 @@ def emit():
         "setup_cmd": "./setup.sh",
         "hooks": {
             "guard": "verif",
-            "enable": "no in-repo hooks: check-time AST rewrite of the current working tree (engine/instr) + `go build -overlay` that swaps sync/atomic/channel/time/socket/os-user-lookup/os-identity calls for scheduler, clock, socket, account-database and process-identity seams adds (in the overlay only) a generated accessor for package-level integer variables, and maps virtual shim packages under <repo>/vshim (DESIGN.md §3.1, §4); the tag `verif` is reserved and passed to no file in the repository",
+            "enable": "no in-repo hooks: check-time AST rewrite of the current working tree (engine/instr) + `go build -overlay` that swaps sync/atomic/channel/time/socket/os-user-lookup/os-identity calls for scheduler, clock, socket, account-database and process-identity seams adds (in the overlay only) a generated accessor for package-level integer variables and a generated Stream wrapper (VerifFullStream) with every method of every interface the root package declares, and maps virtual shim packages under <repo>/vshim (DESIGN.md §3.1, §4); the tag `verif` is reserved and passed to no file in the repository",
             "baseline_off_cmd": "cd /repo && GOFLAGS=-mod=mod go test -vet=off -count=1 -timeout 25m ./...",
             "source_commits": [],
             "add_only": True,
@@ -198,7 +220,7 @@ def emit():
                 "evidence_file": f"/verif/evidence/{pid}.json",
                 "replay_cmd_template": f"./vcheck {pid} --replay {{path}}",
                 "engine": c["engine"],
-                "level_claimed": {"category": c["level"], "text": c["text"] + " " + R7.get(pid, "") + " " + R8.get(pid, "") + " " + R9.get(pid, ""), "design_ref": c["design"] + ", §12.6, §12.7, §12.8"},
+                "level_claimed": {"category": c["level"], "text": c["text"] + " " + R7.get(pid, "") + " " + R8.get(pid, "") + " " + R9.get(pid, "") + " " + R10.get(pid, ""), "design_ref": c["design"] + ", §12.6, §12.7, §12.8, §12.9, §12.10"},
                 "level_note": c["note"],
                 "technique": c["technique"],
             })
